@@ -327,9 +327,10 @@ def _run_frag(case):
                     sel = fid == f
                     dF_f = float(np.abs(out["force"][0][sel] - iso[f]["force"][0]).max())
                     dq_f = float(np.abs(out["q"][0][sel] - iso[f]["q"][0]).max())
-                    if dF_f / bFs[f] >= wF[0] / wF[1]:
+                    # `not (x < y)`: a NaN deviation always becomes the worst one
+                    if not (dF_f / bFs[f] < wF[0] / wF[1]):
                         wF = (dF_f, bFs[f])
-                    if dq_f / bqs[f] >= wq[0] / wq[1]:
+                    if not (dq_f / bqs[f] < wq[0] / wq[1]):
                         wq = (dq_f, bqs[f])
                 d["dF"], d["dq"] = wF, wq
                 eu = np.sort(np.concatenate([o["e_mo"][0][:_norb_of(zz, method)] for o, (zz, _) in zip(iso, cur)]))
@@ -349,7 +350,7 @@ def _run_frag(case):
             cnt("separations_judged")
             names = {"dE": "dE_vs_leading_multipole", "dF": "dF_vs_dipole_field", "dq": "dq_vs_dipole_field",
                      "de_mo": "de_mo_vs_dipole_potential"}
-            bad = {k: [v, b] for k, (v, b) in dev.items() if v > b}
+            bad = {k: [v, b] for k, (v, b) in dev.items() if not (v <= b)}          # NaN violates
             mech = None
             if bad:
                 # same dimer started from the superposition of the isolated fragment densities: decides whether the
@@ -404,7 +405,7 @@ def _run_frag(case):
                         cells.add("cutoff=%g/all-inter-pairs-cut" % c)
                         mech = None
                         dE_m = dE
-                        if abs(dE) > TOL_CUT:
+                        if not (abs(dE) <= TOL_CUT):
                             warm = run.single_point(Z, X, settc, P0=_block_density(fid, lid, iso, nao))
                             cnt("warm_start_reruns")
                             dE_w = float(warm["Etot"][0]) - sum(float(o["Etot"][0]) for o in iso)
